@@ -141,6 +141,7 @@ retry:
          * caller of this will do.
          */
         if (check_status == status::OK_RETRY_AFTER_FB) {
+            YAKUSHIMA_VERIF_HOOK(YAKUSHIMA_VERIF_RETRY, nullptr);
             node_version64_body re_check_v = bn->get_stable_version();
             if (check_v.get_vsplit() != re_check_v.get_vsplit() ||
                 // retry from this b+ tree
